@@ -176,8 +176,8 @@ def escape(ctx, model):
 
 
 def fresh(ctx, model, engine):
-    for cname in FRESH_NATIVES:
-        m = model.method(P, cname, "execute")
+    for cname in FRESH_NATIVES + ["NodeDerefSlice"]:
+        m = model.method(P, cname, "evaluate" if cname.startswith("Node") else "execute")
         ip = engine.interp(m)
         k = 0
         for ev in ip.events:
@@ -188,6 +188,8 @@ def fresh(ctx, model, engine):
                 continue
             k += 1
             al = _arg_alias(v)
+            if cname.startswith("Node"):
+                al = al | {a for a in v.alias if a}
             ok = "fresh" in v.flags and not al
             ctx.check("C16.fresh", m, ev.node, ok,
                       f"{cname} can return a container that is (or aliases) its argument {sorted(al)}: results of "
